@@ -1,14 +1,16 @@
 #!/bin/bash
 # Re-runs the checks against every kept seeded change (no suite) and refreshes seeded/<id>/meta.json.
+# usage: tools/seed_refresh.sh [parallelism]   (each change: its own check plus every check that caught it before)
 cd "$(dirname "$0")/.."
+P=${1:-1}
 for d in seeded/*/; do
   id=$(basename "$d")
   prop=${id%%-*}
+  grep -q '"status": "obsolete' "$d/meta.json" 2>/dev/null && continue
   extra=$(python3 -c "
 import json,sys
 m=json.load(open('$d/meta.json'))
 s=set(m.get('caught_by',[]))|{'$prop'}
 print(' '.join(sorted(s)))")
-  echo "=== $id ($extra)"
-  python3 tools/seed_eval.py "$d" "$id" "$prop" $extra --nosuite 2>&1 | grep -E "KEPT|REJECT" | cut -c1-200
-done
+  echo "$d $id $prop $extra"
+done | xargs -P "$P" -L 1 sh -c 'python3 tools/seed_eval.py "$@" --nosuite 2>&1 | grep -E "KEPT|REJECT" | cut -c1-200' sh
